@@ -2,3 +2,6 @@
 
 /// Build-layer hooks (`hash_line`, `version_header`, `needs_rebuild`, `crash_point`, `CRASH_POINTS`).
 pub use crate::build::verif_hooks as build;
+
+/// Single-pass views without prevalidation (`expand_unvalidated`, `resolve_unvalidated`, `cond_comp_unvalidated`).
+pub use crate::normalize::verif_hooks_passes as passes;
